@@ -304,8 +304,8 @@ def _sql(selectable) -> str:
 
 def campaigns(ctx):
     return [
-        Campaign('hints', case_strategy(False), check_hints, 550, 4000),
-        Campaign('clean', case_strategy(True), check_hints, 550, 4000),
+        Campaign('hints', case_strategy(False), check_hints, 450, 4000),
+        Campaign('clean', case_strategy(True), check_hints, 450, 4000),
     ]
 
 
